@@ -13,6 +13,7 @@ import yaml
 
 from . import xmlparser
 from .dict_parser import DictWriter, DictReader
+from ..dtypes import DType
 from ..info import FORMAT_VERSION
 from .parser_utils import ParserException
 from .parser_utils import SUPPORTED_PARSERS
@@ -117,6 +118,7 @@ class ODMLWriter:
 
             if self.parser == 'YAML':
                 yaml.add_representer(datetime.time, yaml_time_serializer)
+                yaml.add_representer(DType, yaml_dtype_serializer)
                 string_doc = yaml.dump(odml_output, default_flow_style=False)
             elif self.parser == 'JSON':
                 string_doc = json.dumps(odml_output, indent=4,
@@ -131,6 +133,15 @@ def yaml_time_serializer(dumper, data):
     when working with YAML as output format.
     """
     return dumper.represent_scalar('tag:yaml.org,2002:str', str(data))
+
+
+def yaml_dtype_serializer(dumper, data):
+    """
+    This function is required to serialize odml.DType members as plain strings
+    when working with YAML as output format. Without it they are written with a
+    python specific tag that the safe YAML loader refuses on load.
+    """
+    return dumper.represent_scalar('tag:yaml.org,2002:str', data.value)
 
 
 class JSONDateTimeSerializer(json.JSONEncoder):
